@@ -97,9 +97,12 @@ def namedEscape : UInt8 → Option UInt8
 `DerivesLit d s bs`: the spelling `bs`, whose raw parentheses nest at most `d` deep, denotes the
 byte string `s`.
   * `raw`   any byte other than `(`, `)`, `\`, CR stands for itself (this includes a raw LF);
-  * `rawCR` a raw CR stands for ITSELF and a raw CR LF for CR LF — this is lopdf's reading.
+  * `rawCR`/`rawCRLF` a raw CR (not followed by LF) stands for ITSELF and a raw CR LF for CR LF —
+            this is lopdf's reading.
             DEVIATION (registered finding F-C02-a, open): ISO 32000-1 §7.3.4.2 says an
-            end-of-line marker inside a literal string, however written, is read as one LF;
+            end-of-line marker inside a literal string, however written, is read as one LF
+            (every other rule is the ISO rule: a derivation that uses neither of the two is a
+            derivation of the ISO value);
   * `named` `\n \r \t \b \f \( \) \\`;
   * `other` a backslash before any other character that is neither an octal digit nor CR/LF is
             ignored: the character stands for itself;
@@ -113,7 +116,8 @@ inductive DerivesLit : Nat → Bytes → Bytes → Prop where
   | nil (d : Nat) : DerivesLit d [] []
   | raw (d : Nat) (b : UInt8) (s bs : Bytes) : b ≠ 40 → b ≠ 41 → b ≠ 92 → b ≠ 13 →
       DerivesLit d s bs → DerivesLit d (b :: s) (b :: bs)
-  | rawCR (d : Nat) (s bs : Bytes) : DerivesLit d s bs → DerivesLit d (13 :: s) (13 :: bs)
+  | rawCR (d : Nat) (s bs : Bytes) : NoLfAhead bs → DerivesLit d s bs → DerivesLit d (13 :: s) (13 :: bs)
+  | rawCRLF (d : Nat) (s bs : Bytes) : DerivesLit d s bs → DerivesLit d (13 :: 10 :: s) (13 :: 10 :: bs)
   | named (d : Nat) (c v : UInt8) (s bs : Bytes) : namedEscape c = some v →
       DerivesLit d s bs → DerivesLit d (v :: s) (92 :: c :: bs)
   | other (d : Nat) (c : UInt8) (s bs : Bytes) : namedEscape c = none → isOctDigit c = false →
